@@ -24,6 +24,7 @@ partial def docJson : MDoc → Json
   | .and xs => Json.mkObj [("$and", Json.arr (xs.map docJson).toArray)]
   | .or xs => Json.mkObj [("$or", Json.arr (xs.map docJson).toArray)]
   | .all => Json.mkObj []
+  | .nothing => Json.mkObj [("f", Json.str "_id"), ("o", Json.mkObj [("$exists", Json.bool false)])]
   | .crash => Json.str "panic"
 
 def stepHas (j : Json) : Json :=
